@@ -139,6 +139,20 @@ func (s *stubHandler) Generate(*csr.ReqParam) ([]csr.AgentKey, error) {
 	return out, nil
 }
 
+// refuser is a handler that does not authenticate anybody.
+type refuser struct{ plain bool }
+
+func (f *refuser) Name() string { return "refuser" }
+func (f *refuser) Authenticate(*csr.ReqParam) error {
+	if f.plain {
+		return fmt.Errorf("not for me")
+	}
+	return gensign.NewErrorWithMsg(gensign.HandlerAuthN, "refuser", "not for me")
+}
+func (f *refuser) Generate(*csr.ReqParam) ([]csr.AgentKey, error) {
+	return nil, gensign.NewErrorWithMsg(gensign.HandlerGenCSRErr, "refuser", "never authenticated")
+}
+
 type stubKey struct {
 	*agssh.AgentKey
 	csrs []*proto.SSHCertificateSigningRequest
@@ -386,6 +400,56 @@ func main() {
 				})
 			}
 			_ = signAt
+		}
+		// a panic is a panic whatever happened before it: handlers that refused (with a typed or a plain error) precede
+		// the handler in which something panics
+		for nRef := 1; nRef <= 2; nRef++ {
+			for _, m := range []string{"Name", "Authenticate", "Generate", "CSRs", "AddCertsToAgent", "signer"} {
+				for _, plain := range []bool{false, true} {
+					c := r.Case("fault", idx)
+					idx++
+					if c == nil || hungOnce {
+						continue
+					}
+					sh := shape{Keys: 1, CSRs: 1, NCerts: 1}
+					rec := faultRec{Shape: sh, Fault: fmt.Sprintf("panic-in-%s-after-%d-refusing-handlers", m, nRef), Stage: "panic"}
+					ag, tr, signer, closeFn, err := build(e, sh)
+					if err != nil {
+						closeFn()
+						continue
+					}
+					switch m {
+					case "Name", "Authenticate", "Generate":
+						tr.panicIn = m
+					case "CSRs", "AddCertsToAgent":
+						tr.keyPanic = m
+					case "signer":
+						signer.Fault = map[int]string{0: "panic"}
+					}
+					var hs []gensign.Handler
+					for k := 0; k < nRef; k++ {
+						hs = append(hs, &refuser{plain: plain != (k == 1)})
+					}
+					hs = append(hs, tr)
+					r.Eval(1)
+					runErr, escaped := gsrig.Run(param(), hs, signer)
+					rec.Result = gsrig.Kind(runErr)
+					closeFn()
+					_ = ag
+					switch {
+					case escaped != "":
+						r.Violation(c, gsrig.EscapeSig(escaped)+":"+rec.Fault, escaped, rec)
+						if escaped == gsrig.Hung {
+							hungOnce = true
+						}
+					case rec.Result != "panic":
+						r.Violation(c, fmt.Sprintf("wrong-error-kind:%s@panic:got=%s", rec.Fault, rec.Result), fmt.Sprintf("Run returned %q (%v)", rec.Result, runErr), rec)
+					default:
+						r.Count("panic after refusing handlers -> panic kind", 1)
+						r.Nontrivial(fmt.Sprintf("%s|%v", rec.Fault, plain))
+					}
+				}
+			}
 		}
 		r.Extra("shapes", len(shapes))
 		r.Extra("fault_runs", idx)
